@@ -1743,6 +1743,101 @@ async fn scenario_c13_failed_retrier(id: u64, ctx: &str, mut plugin: Plugin, tow
     let _ = std::fs::remove_dir_all(&dir);
 }
 
+/// A revocation arrives while the retrier is in the middle of its (slow) last delivery, and the tower fails again right after
+/// that delivery: the data of the new revocation is pending and undelivered, so the tower must not be shown reachable.
+async fn scenario_c13_mid_delivery(id: u64, mut plugin: Plugin, tower: Arc<FakeTower>, tid: String, mut rng: Rng, dir: PathBuf, replay: Value, r: &mut PropReport, bound_s: u64) {
+    let ctx = format!("scenario {id} (revocation-mid-delivery)");
+    tower.set_up(false);
+    let mut revs = Vec::new();
+    let rev = revocation(&mut rng, 1);
+    if plugin.revoke(&rev, HOOK_TIMEOUT).await.is_err() {
+        r.violation("C13:hook-unanswered", format!("{ctx}: a notification was not answered while the tower was down; stderr {:?}", plugin.panic_text()), replay.clone());
+        plugin.kill().await;
+        return;
+    }
+    revs.push(rev);
+    {
+        let mut st = tower.state.lock().unwrap();
+        st.add_delay_ms = 1200;
+        st.add.clear();
+        st.add.push_back(Beh::Accept);
+        st.default_add = Beh::NonJson;
+    }
+    let seen0 = tower.state.lock().unwrap().adds_seen;
+    tower.set_up(true);
+    let t_w = Instant::now();
+    while tower.state.lock().unwrap().adds_seen == seen0 && t_w.elapsed() < Duration::from_secs(bound_s) {
+        tokio::time::sleep(Duration::from_millis(20)).await;
+    }
+    if tower.state.lock().unwrap().adds_seen == seen0 {
+        // the retry never reached the tower inside the bound: other scenarios judge that; nothing to observe here
+        r.inconclusive += 1;
+        r.note(format!("{ctx}: the retrier did not reach the tower within {bound_s}s"));
+        plugin.kill().await;
+        let _ = std::fs::remove_dir_all(&dir);
+        return;
+    }
+    // the first delivery is being answered (1.2 s); the second revocation lands shortly before the answer
+    tokio::time::sleep(Duration::from_millis(1000)).await;
+    let rev = revocation(&mut rng, 2);
+    if plugin.revoke(&rev, HOOK_TIMEOUT).await.is_err() {
+        r.violation("C13:hook-unanswered", format!("{ctx}: a notification arriving during a delivery was not answered; stderr {:?}", plugin.panic_text()), replay.clone());
+        plugin.kill().await;
+        return;
+    }
+    revs.push(rev);
+    // from now on the tower answers garbage: whatever is still pending stays pending. Shown reachable with data pending for
+    // more than a moment (600 ms of consecutive observations) = untruthful status
+    let t_w = Instant::now();
+    let mut bad_since: Option<Instant> = None;
+    let mut observed = 0u64;
+    while t_w.elapsed() < Duration::from_millis(3000) {
+        if let Some((st, pend)) = tower_status(&mut plugin, &tid).await {
+            observed += 1;
+            if st == "reachable" && pend > 0 {
+                let since = *bad_since.get_or_insert_with(Instant::now);
+                if since.elapsed() > Duration::from_millis(600) {
+                    let acc = tower.state.lock().unwrap().accepted.len();
+                    r.violation("C13:reachable-with-pending-while-failing", format!("{ctx}: a revocation arrived while the retrier was delivering its last appointment and the tower failed again right after; for more than 600 ms the tower has been shown as reachable with {pend} pending appointments ({acc} of {} accepted by the tower, which answers garbage now)", revs.len()), replay.clone());
+                    break;
+                }
+            } else {
+                bad_since = None;
+            }
+        }
+        tokio::time::sleep(Duration::from_millis(50)).await;
+    }
+    r.count("mid_delivery_status_observations", observed);
+    // recovery: everything is delivered within the bound
+    {
+        let mut st = tower.state.lock().unwrap();
+        st.add_delay_ms = 0;
+        st.add.clear();
+        st.default_add = Beh::Accept;
+    }
+    let t_rec = Instant::now();
+    let mut last = None;
+    let mut ok = false;
+    while t_rec.elapsed() < Duration::from_secs(bound_s + 4) {
+        tokio::time::sleep(Duration::from_millis(400)).await;
+        last = tower_status(&mut plugin, &tid).await;
+        if last.as_ref().map(|s| (s.0.as_str(), s.1)) == Some(("reachable", 0)) {
+            ok = true;
+            break;
+        }
+    }
+    if !ok && plugin.alive() {
+        r.violation("C13:not-delivered:revocation-mid-delivery", format!("{ctx}: {}s after the tower works again it is shown as {last:?}; stderr {:?}", bound_s + 4, plugin.panic_text()), replay.clone());
+    }
+    if let Some(pt) = plugin.panic_text() {
+        r.violation("C13:panic", format!("{ctx}: {pt}"), replay.clone());
+    }
+    r.nontrivial(fnv(format!("{id}:revocation-mid-delivery").as_bytes()));
+    r.count("kind[revocation-mid-delivery]", 1);
+    plugin.kill().await;
+    let _ = std::fs::remove_dir_all(&dir);
+}
+
 async fn scenario_c13(seed: u64, id: u64, base: &Path, r: &mut PropReport) {
     let mut rng = Rng::stream(seed, 0xC13, id);
     let dir = base.join(format!("c13-{id}"));
@@ -1766,6 +1861,9 @@ async fn scenario_c13(seed: u64, id: u64, base: &Path, r: &mut PropReport) {
         r.inconclusive += 1;
         plugin.kill().await;
         return;
+    }
+    if id % 8 == 2 {
+        return scenario_c13_mid_delivery(id, plugin, tower, tid, rng, dir, replay, r, max_retry + auto_delay + 2 + 8).await;
     }
     // error kind while the tower "keeps failing"
     let mut kind = rng.below(6);
@@ -1892,6 +1990,23 @@ async fn scenario_c13(seed: u64, id: u64, base: &Path, r: &mut PropReport) {
                     }
                 }
             }
+        }
+    }
+    // a manual retry while the tower is still failing: the retrier starts from what the database holds, fails again, and at no
+    // moment may the tower be shown reachable while it has data pending (nothing is delivered: the tower has not answered one
+    // add_appointment properly since the outage began, and no revocation arrives in this window)
+    if gave_up && !restarted && kind != 1 && kind != 2 && plugin.alive() {
+        let accepted = plugin.call("retrytower", json!([tid]), 10).await.is_ok();
+        r.count(if accepted { "manual_retries_while_failing" } else { "manual_retries_while_failing_refused" }, 1);
+        let t_w = Instant::now();
+        while t_w.elapsed() < Duration::from_millis(2500) {
+            if let Some((st, pend)) = tower_status(&mut plugin, &tid).await {
+                if st == "reachable" && pend > 0 {
+                    r.violation("C13:reachable-with-pending-while-failing", format!("{ctx}: retrytower was asked while the tower was still failing; the tower is shown as reachable with {pend} pending appointments although it has not accepted anything since the outage began"), replay.clone());
+                    break;
+                }
+            }
+            tokio::time::sleep(Duration::from_millis(60)).await;
         }
     }
     // ---- recovery
